@@ -761,7 +761,7 @@ def replay(path):
     return 1 if res["fails"] else 0
 
 
-def selftest(quick=True, nproc=None, verbose=True):
+def selftest(quick=True, nproc=None, verbose=True, n=None, overrides_diff=True):
     """Soundness self-test of the complex enclosure layer (MACHINERY; never a verdict).  True iff everything passed.
     1. every function of AccuracyC!TrueVal on n random dyadic points per width (W = 96 and 160; n = 1000, quick 150):
        the mpmath value (>= 400 bits; sides of cuts / signs from the recorded sign bits) of BOTH components lies
@@ -772,7 +772,7 @@ def selftest(quick=True, nproc=None, verbose=True):
     5. binding: one corrupted bit of one recorded result component -> exactly that event is rejected."""
     ok = True
     say = print if verbose else (lambda *a, **k: None)
-    n = 150 if quick else 1000
+    n = n or (150 if quick else 1000)
     nproc = nproc or (6 if quick else tlc.NCPU)
     tlc.ensure_overrides()
     t0 = time.time()
@@ -786,7 +786,7 @@ def selftest(quick=True, nproc=None, verbose=True):
             for eid, cl in r["fails"][:8]:
                 e = byid[eid]
                 say("   %s %s x=%s*2^%d y=%s*2^%d sx=%d sy=%d" % (cl, e["g"], bits.unzint(e["x"][0]), e["x"][1], bits.unzint(e["y"][0]), e["y"][1], e["sx"], e["sy"]))
-    if tlc.overrides_available():
+    if tlc.overrides_available() and overrides_diff:
         evs = selftest_events(ENCL_FNS, 2 if quick else 8, 96, 77, show=True)
         evs = [e for e in evs if max(abs(e["x"][1]), abs(e["y"][1])) < 200]       # pure TLA+ shifts of 1000 bits cost seconds
         outs = []
